@@ -337,6 +337,7 @@ def run_path(job):
 def leak_case(job):
     """(rel) an iteration never increases the leakage: cost after n+1 iterations <= cost after n"""
     alg, K, N, seed = job
+    np.random.seed(seed % (2 ** 31))          # random initialisations draw from numpy's global generator
     from pyphysim.channels.multiuser import MultiUserChannelMatrix
     rs = np.random.RandomState(seed)
     ch = MultiUserChannelMatrix()
@@ -365,12 +366,14 @@ def leak_case(job):
 def multistream_case(job):
     """solvers must complete for more than one stream per user (4x4 antennas, Ns = 2)"""
     alg, seed = job
+    np.random.seed(seed % (2 ** 31))          # random initialisations draw from numpy's global generator
     from pyphysim.channels.multiuser import MultiUserChannelMatrix
     ch = MultiUserChannelMatrix()
     ch.set_channel_seed(seed)
     ch.randomize(4, 4, 3)
     ch.noise_var = 0.01
     s = solver_class(alg)(ch)
+    seed_solver(s, seed)
     if alg != "ClosedForm":
         s.max_iterations = 30
         # every initialisation mode (the alternating-minimization solver cannot be initialised from itself)
@@ -404,6 +407,14 @@ def multistream_case(job):
         except Exception as ex:
             bad.append(f"full_W_H of user {k} cannot be evaluated: {type(ex).__name__}: {ex}")
     return ("; ".join(bad) if bad else None), None
+
+
+def seed_solver(s, seed):
+    """random initialisations draw from a per-solver RandomState that the API does not let one seed"""
+    for o in (s, getattr(s, "_alt_min_ia_solver", None), getattr(s, "_closed_form_ia_solver", None)):
+        rs = getattr(o, "_rs", None)
+        if rs is not None:
+            rs.seed(seed % (2 ** 31))
 
 
 def solution_defects(s, ch, alg, K, Nr, Nt, pw):
@@ -441,6 +452,7 @@ CONFIGS = [  # (Nr, Nt, K, Ns): non-square antennas, unequal stream counts, four
 def config_case(job):
     """solving completes and yields a valid solution on non-square / unequal-stream configurations"""
     alg, ci, seed = job
+    np.random.seed(seed % (2 ** 31))          # random initialisations draw from numpy's global generator
     Nr, Nt, K, Ns = CONFIGS[ci]
     from pyphysim.channels.multiuser import MultiUserChannelMatrix
     ch = MultiUserChannelMatrix()
@@ -448,6 +460,7 @@ def config_case(job):
     ch.randomize(Nr, Nt, K)
     ch.noise_var = 0.01
     s = solver_class(alg)(ch)
+    seed_solver(s, seed)
     s.max_iterations = 40
     powers = 1.3 if seed % 2 == 0 else np.array([1.5, 0.7, 1.1, 2.0])[:K]
     try:
@@ -462,12 +475,14 @@ def leak_multi_case(job):
     """(rel) leakage never increases from one iteration to the next, several (unequal) streams per user, equal powers,
     no noise; the solver is continued one iteration at a time from its own precoders"""
     alg, Nr, Ns, seed = job
+    np.random.seed(seed % (2 ** 31))          # random initialisations draw from numpy's global generator
     from pyphysim.channels.multiuser import MultiUserChannelMatrix
     K = len(Ns)
     ch = MultiUserChannelMatrix()
     ch.set_channel_seed(seed)
     ch.randomize(Nr, Nr, K)
     s = solver_class(alg)(ch)
+    seed_solver(s, seed)
     s.max_iterations = 1
     s.relative_factor = 0.0
     costs = []
@@ -490,6 +505,7 @@ def leak_multi_case(job):
 def greedy_case(job):
     """the greedy stream-reduction wrapper leaves the wrapped solver with a valid solution for the power it was given"""
     alg, seed = job
+    np.random.seed(seed % (2 ** 31))          # random initialisations draw from numpy's global generator
     from pyphysim.channels.multiuser import MultiUserChannelMatrix
     from pyphysim.ia.algorithms import GreedStreamIASolver
     K, N = 3, 4
@@ -498,6 +514,7 @@ def greedy_case(job):
     ch.randomize(N, N, K)
     ch.noise_var = 1e-3 if seed % 2 else 0.1
     s = solver_class(alg)(ch)
+    seed_solver(s, seed)
     s.max_iterations = 40
     if seed % 3 == 0:
         s.initialize_with = "closed_form"
@@ -592,8 +609,8 @@ def rel_cases(ctx):
         ctx.ok(("config",) + job)
         if d:
             ctx.violation(d, {"kind": "config", "job": list(job)})
-    jobs = [(alg, Nr, Ns, ctx.seed * 17 + i) for alg in ("AltMin", "MinLeakage") for Nr, Ns in ((4, [3, 2, 2]), (4, [2, 1, 2, 1]), (6, [5, 3, 3]))
-            for i in range(6 if thorough else 2)]
+    jobs = [(alg, Nr, Ns, ctx.seed * 17 + i) for alg in ("AltMin", "MinLeakage") for Nr, Ns in ((4, [3, 2, 2]), (4, [3, 1, 1]), (4, [2, 1, 2, 1]), (6, [5, 3, 3]))
+            for i in range(16 if thorough else 6)]
     for job, (d, costs) in zip(jobs, pool_map(leak_multi_case, jobs)):
         ctx.ok(("leakmulti", job[0], job[1], str(job[2]), job[3]))
         if d:
